@@ -750,7 +750,9 @@ class Opaque(Type):
         # actual type or a row variable.
         args = [cast(model.Term, arg.to_model()) for arg in self.args]
 
-        return model.Apply(self.id, args)
+        # same symbol as the resolved form (ExtType): the extension-qualified name
+        name = f"{self.extension}.{self.id}" if self.extension else self.id
+        return model.Apply(name, args)
 
 
 @dataclass
